@@ -1,2 +1,3 @@
 pub mod direct;
 pub mod duplex;
+pub mod txscript;
